@@ -436,6 +436,39 @@ pub fn make_case(ctx: &ShardCtx, i: u64) -> Case {
         // (the same query shape, so that the matches are met in stanza order)
         stanzas.push(st("(module . (_) @_cz) @cb", vec![Stmt::Let(VarRef::Scoped(sc("cb", "nx"), "nx".into()), Expr::Str("end".into()))]));
     }
+    // pairs of stanzas with the *same query shape* on the same node: their matches are met in
+    // stanza order, so every permutation really is another schedule
+    if r.chance(1, 8) {
+        while stanzas.len() > 3usize.max(protected) {
+            stanzas.pop();
+        }
+        match r.below(3) {
+            0 | 1 => {
+                // two different values for one attribute of one node (one of them #null, or two
+                // lists): a conflict, hence a failure, in every order
+                let (v1, v2) = if r.chance(1, 2) {
+                    (Expr::Null, Expr::Str("v".into()))
+                } else {
+                    (Expr::List(vec![Expr::Str("has-imports".into())]), Expr::List(vec![Expr::Str("has-definitions".into())]))
+                };
+                stanzas.push(st("(module) @pa", vec![Stmt::Node(VarRef::Scoped(cap("pa"), "mn".into()))]));
+                stanzas.push(st("(module) @qa", vec![Stmt::AttrNode(sc("qa", "mn"), vec![("x".into(), v1)])]));
+                stanzas.push(st("(module) @qb", vec![Stmt::AttrNode(sc("qb", "mn"), vec![("x".into(), v2)])]));
+            }
+            _ => {
+                // statements whose operands are all globals: nodes of a graph that exists
+                // before the call; the edge and its attribute come from different stanzas
+                for g in ["gna", "gnb"] {
+                    prog.globals.push(gen::GlobalDecl { name: g.into(), quant: "", default: None });
+                }
+                globs.push(("gna".into(), simrun::GVal::GNode(0)));
+                globs.push(("gnb".into(), simrun::GVal::GNode(1)));
+                stanzas.push(st("(module) @_ma", vec![Stmt::Edge(Expr::Var("gna".into()), Expr::Var("gnb".into()))]));
+                stanzas.push(st("(module) @_mb", vec![Stmt::AttrEdge(Expr::Var("gna".into()), Expr::Var("gnb".into()), vec![("k".into(), Expr::Int(1))])]));
+                stanzas.push(st("(module) @_mc", vec![Stmt::AttrNode(Expr::Var("gnb".into()), vec![("seen".into(), Expr::True)])]));
+            }
+        }
+    }
     for i in inherits {
         if !prog.inherits.contains(&i) {
             prog.inherits.push(i);
@@ -538,13 +571,17 @@ fn run_one(text: &str, source: &str, globs: &Globs, debug: bool) -> Result<Outco
         let file = simrun::load(text)?;
         let tree = simrun::parse_python(source);
         let fns = simrun::functions();
-        let vars = simrun::make_variables(globs, &[]);
+        // graph-node-valued globals refer to nodes of a graph that exists before the call
+        let n_pre = globs.iter().filter_map(|(_, v)| if let simrun::GVal::GNode(i) = v { Some(*i as usize + 1) } else { None }).max().unwrap_or(0);
+        let mut graph = tree_sitter_graph::graph::Graph::new();
+        let pre: Vec<tree_sitter_graph::graph::GraphNodeRef> = (0..n_pre).map(|_| graph.add_graph_node()).collect();
+        let vars = simrun::make_variables(globs, &pre);
         let mut config = tree_sitter_graph::ExecutionConfig::new(&fns, &vars).lazy(true);
         if debug {
             config = config.debug_attributes(Identifier::from("dbg_loc"), Identifier::from("dbg_var"), Identifier::from("dbg_match"));
         }
-        Ok(match file.execute(&tree, source, &config, &tree_sitter_graph::NoCancellation) {
-            Ok(graph) => {
+        Ok(match file.execute_into(&mut graph, &tree, source, &config, &tree_sitter_graph::NoCancellation) {
+            Ok(()) => {
                 let mut g = canon::cgraph(&graph);
                 if debug {
                     for n in &mut g.nodes {
